@@ -430,15 +430,17 @@ namespace detail
 	{
 		GLM_STATIC_ASSERT(std::numeric_limits<genType>::is_iec559 || GLM_CONFIG_UNRESTRICTED_FLOAT, "'roundEven' only accept floating-point inputs");
 
-		int Integer = static_cast<int>(x);
-		genType IntegerPart = static_cast<genType>(Integer);
-		genType FractionalPart = fract(x);
+		// No conversion through int: it is undefined for |x| >= 2^31, infinities and NaN.
+		genType const IntegerPart = trunc(x);
+		genType const FractionalPart = x - IntegerPart; // exact; NaN for infinities
 
-		if(FractionalPart > static_cast<genType>(0.5) || FractionalPart < static_cast<genType>(0.5))
+		if(abs(FractionalPart) != static_cast<genType>(0.5))
 		{
 			return round(x);
 		}
-		else if((Integer % 2) == 0)
+
+		genType const Half = IntegerPart * static_cast<genType>(0.5);
+		if(trunc(Half) == Half)
 		{
 			return IntegerPart;
 		}
